@@ -71,6 +71,9 @@ Bijective(t, seen) ==
             /\ \A i \in DOMAIN K.fields :
                  LET f == K.fields[i] IN
                  /\ ~f.skipd /\ ~f.skips /\ f.kind = "normal" /\ f.skip_if = "" /\ ~f.fbd /\ f.props # "pat"
+                 \* a property-count constraint on an object whose defaulted fields are emitted back (class RC):
+                 \* completing with defaults can leave the constrained set -- outside the fragment
+                 /\ \A j \in DOMAIN f.cons : f.cons[j][1] \notin {"min_props", "max_props"}
                  /\ Bijective(f.type, seen \cup {t.cls})
     [] t.k = "newtype" -> Bijective(t.sup, seen)
     [] t.k = "annot" -> Bijective(t.t, seen)
@@ -100,6 +103,10 @@ UsesFeatureS(t, feat, seen) ==
                       (\/ feat = "patoverlap" /\ PatOverlapS(t.cls)
                        \/ \E i \in DOMAIN UClasses[t.cls].fields :
                           (feat = "flattened" /\ UClasses[t.cls].fields[i].flat)
+                          \* a property-COUNT constraint carried by a field: the omission options (exclude_defaults,
+                          \* exclude_none) change the count of what is emitted -- outside what C07 can ask for
+                          \/ (feat = "propcount" /\ \E j \in DOMAIN UClasses[t.cls].fields[i].cons :
+                                   UClasses[t.cls].fields[i].cons[j][1] \in {"min_props", "max_props"})
                           \/ UsesFeatureS(UClasses[t.cls].fields[i].type, feat, seen \cup {t.cls}))
     [] t.k = "newtype" -> UsesFeatureS(t.sup, feat, seen)
     [] t.k = "annot" -> UsesFeatureS(t.t, feat, seen)
@@ -112,7 +119,7 @@ UsesFeatureS(t, feat, seen) ==
     [] OTHER -> FALSE
 SerSchemaAccepts == Validates(Ctx(O), "s", SchemaOf(Ctx(O), "s", T, <<>>, {}), AsData(res))
 SerValidates ==
-  (phase = "done" /\ ~HasSErr(res) /\ \A g \in {"flattened", "discriminated", "patoverlap"} : ~UsesFeatureS(T, g, {}))
+  (phase = "done" /\ ~HasSErr(res) /\ \A g \in {"flattened", "discriminated", "patoverlap", "propcount"} : ~UsesFeatureS(T, g, {}))
      => SerSchemaAccepts
 
 Init == /\ T \in Types /\ O \in SOptsFor(T)
@@ -124,7 +131,7 @@ Run == /\ phase = "value"
        /\ Emit => PrintT(ToJson([type |-> T, opts |-> O, value |-> v, expect |-> res',
                                  any |-> SerAny(Ctx(O), v),
                                  bij |-> Bijective(T, {}), ambig |-> Ambig(Ctx(O), T, {}),
-                                 gaps |-> {g \in {"flattened", "discriminated", "patoverlap"} : UsesFeatureS(T, g, {})},
+                                 gaps |-> {g \in {"flattened", "discriminated", "patoverlap", "propcount"} : UsesFeatureS(T, g, {})},
                                  saccept |-> IF HasSErr(res') THEN TRUE
                                              ELSE Validates(Ctx(O), "s", SchemaOf(Ctx(O), "s", T, <<>>, {}), AsData(res'))]))
 Next == PickValue \/ Run
